@@ -41,6 +41,34 @@ class Token:
         raise Unsupported("ordering of external tokens")
 
 
+class Deque:
+    """collections.deque restricted to append / appendleft / pop / popleft / len / truthiness / iteration"""
+
+    def __init__(self, items):
+        self.items = list(items)
+
+    def __vf_getattr__(self, I, name):
+        if name == "append":
+            return BoundBuiltin(lambda x: self.items.append(x))
+        if name == "appendleft":
+            return BoundBuiltin(lambda x: self.items.insert(0, x))
+        if name == "extend":
+            return BoundBuiltin(lambda xs: self.items.extend(B.iterate(I, xs)))
+        if name in ("pop", "popleft"):
+            def pop():
+                if not self.items:
+                    I.raise_("IndexError", "pop from an empty deque")
+                return self.items.pop(0 if name == "popleft" else -1)
+            return BoundBuiltin(pop)
+        raise Unsupported(f"deque.{name}")
+
+    def __vf_len__(self, I):
+        return len(self.items)
+
+    def __vf_iter__(self, I):
+        return list(self.items)
+
+
 def install(I):
     ext = I.externals
 
@@ -110,6 +138,9 @@ def install(I):
     def defaultdict(I, args, kwargs):
         raise Unsupported("defaultdict")
 
+    def deque(I, args, kwargs):
+        return Deque(B.iterate(I, args[0]) if args else [])
+
     def np_log(I, args, kwargs):
         import math
         if isinstance(args[0], (int, float)):
@@ -131,6 +162,7 @@ def install(I):
         "itertools.accumulate": it_accumulate,
         "itertools.combinations": it_combinations,
         "collections.defaultdict": defaultdict,
+        "collections.deque": deque,
         "torch.get_default_dtype": lambda I, a, k: Token("torch.default_dtype"),
     })
     from . import tensor
